@@ -113,11 +113,11 @@ func ruleC18(r *Report) {
 		}
 		vcalls := callsAcross(ctxs, isV)
 		ucalls := callsAcross(ctxs, func(c *ssa.Call) bool {
-			scf := c.Call.StaticCallee()
-			if scf == nil || !sr.Unmarshal[scf] || len(c.Call.Args) < 2 {
+			_, target, isU := unmarshalSiteOf(p, sr, c)
+			if !isU || target == nil {
 				return false
 			}
-			if mi, ok := c.Call.Args[1].(*ssa.MakeInterface); ok {
+			if mi, ok := target.(*ssa.MakeInterface); ok {
 				return typeIs(mi.X.Type(), modPath, "LogoutResponse")
 			}
 			return false
@@ -128,7 +128,11 @@ func ruleC18(r *Report) {
 			r.Bad("C18.sig-required", cons, p.Pos(fn.Pos()), fmt.Sprintf("%d unmarshal sites of a LogoutResponse on this path (expected one)", len(ucalls)))
 		default:
 			u := ucalls[0]
-			elAP := u.FC.AP(u.Call.Call.Args[0])
+			uel, _, _ := unmarshalSiteOf(p, sr, u.Call)
+			if uel == nil {
+				uel = u.Call.Call.Args[0]
+			}
+			elAP := u.FC.AP(uel)
 			sig := B.False
 			var seen []string
 			for _, vc := range vcalls {
@@ -228,6 +232,12 @@ func ruleC18(r *Report) {
 	// inflate: no raw decompressor on the logout path; the redirect variant reads through the bounded reader
 	for _, f := range sortedFns(p, allFns) {
 		for _, ci := range callsTo(f, decompressors...) {
+			// the bounded reader built in place (&saferReader{r: flate.NewReader(x)}): the raw reader's only use is the store
+			// into the wrapper's field (the wrapper's Read guard is judged by C09.inflate)
+			if w := wrappedDecompressor(p, ci.(ssa.Value)); w != nil {
+				r.OK("C18.inflate", p.FnName(f)+": inflates through "+w.Obj().Name(), p.InstrPos(ci.(ssa.Instruction)), "raw reader stored only into the bounded wrapper")
+				continue
+			}
 			r.Bad("C18.inflate", p.FnName(f)+": raw decompressing reader", p.InstrPos(ci.(ssa.Instruction)), "unbounded inflate of a peer-provided stream")
 		}
 		for _, ci := range callsTo(f, "io.ReadAll") {
@@ -371,4 +381,54 @@ func isDocumentRootComponent(p *Prog, fc *FuncCtx, c *ssa.Call, idx int, depth i
 		}
 	}
 	return n > 0
+}
+
+// wrappedDecompressor: every use of the decompressing reader v is a store into a field of one module struct type that has
+// a Read method of its own: that type. nil otherwise (returned, passed on or read directly).
+func wrappedDecompressor(p *Prog, v ssa.Value) *types.Named {
+	var wrapper *types.Named
+	vals := []ssa.Value{v}
+	if tup, ok := v.Type().(*types.Tuple); ok && tup.Len() == 2 && v.Referrers() != nil {
+		vals = nil
+		for _, rf := range *v.Referrers() {
+			if ex, ok := rf.(*ssa.Extract); ok && ex.Index == 0 {
+				vals = append(vals, ex)
+			}
+		}
+	}
+	n := 0
+	for len(vals) > 0 {
+		cur := vals[0]
+		vals = vals[1:]
+		if cur.Referrers() == nil {
+			return nil
+		}
+		for _, rf := range *cur.Referrers() {
+			switch y := rf.(type) {
+			case *ssa.Store:
+				fa, ok := y.Addr.(*ssa.FieldAddr)
+				if !ok || y.Val != cur {
+					return nil
+				}
+				nm := namedOf(fa.X.Type())
+				if nm == nil || nm.Obj().Pkg() == nil || !strings.HasPrefix(nm.Obj().Pkg().Path(), modPath) || wrapper != nil && wrapper != nm {
+					return nil
+				}
+				wrapper = nm
+				n++
+			case *ssa.MakeInterface, *ssa.ChangeInterface:
+				vals = append(vals, y.(ssa.Value))
+			case *ssa.DebugRef, *ssa.Extract:
+			default:
+				return nil
+			}
+		}
+	}
+	if wrapper == nil || n == 0 {
+		return nil
+	}
+	if read := p.SSA.LookupMethod(types.NewPointer(wrapper), wrapper.Obj().Pkg(), "Read"); read == nil || len(read.Blocks) == 0 {
+		return nil
+	}
+	return wrapper
 }
